@@ -542,6 +542,33 @@ mod borrowed {
                     format!("cfg={}/{}/slice64 fin=drop ops={}", e.name(), stringify!($W), wops_to_string(ops))
                 });
             }
+            // an owned Box<[W]> (a backend that owns a Box), finished by into_inner: under the interpreter
+            // this is what exercises the unsafe block of into_inner with a Unique pointer inside the backend
+            let boxed: Box<[$W]> = vec![<$W>::MAX; img.len() / (wbits / 8) + 2].into_boxed_slice();
+            let r = guard_v(|| {
+                let mut w = BufBitWriter::<$E, _>::new(MemWordWriterSlice::new(boxed));
+                for op in ops {
+                    match op {
+                        WOp::Bits(x, n) => { w.write_bits(*x, *n).unwrap(); }
+                        WOp::Unary(x) => { w.write_unary(*x).unwrap(); }
+                        _ => { BitWrite::flush(&mut w).unwrap(); }
+                    }
+                }
+                w.into_inner().unwrap().into_inner()
+            });
+            $rep.eval(1);
+            let ok = match &r {
+                Out::Ok(b) => {
+                    let got = crate::backends::bytes_from_words(&b[..]);
+                    got[..img.len()] == img[..] && got[img.len()..].iter().all(|x| *x == 0xff)
+                }
+                _ => false,
+            };
+            if !ok {
+                $rep.violation(&format!("{}|{}|boxed-slice|into_inner", e.name(), stringify!($W)), || format!("{} model {}", r.show(), hex(&img)), || {
+                    format!("cfg={}/{}/slice64 fin=into_inner ops={}", e.name(), stringify!($W), wops_to_string(ops))
+                });
+            }
         }};
     }
 
